@@ -18,6 +18,8 @@ func main() {
 	case "gen":
 		seed, _ := strconv.ParseInt(os.Args[4], 10, 64)
 		os.Exit(cmdGen(os.Args[2], os.Args[3], seed))
+	case "digest":
+		os.Exit(cmdDigest(os.Args[2]))
 	case "race":
 		os.Exit(cmdRace(8))
 	case "run":
